@@ -681,3 +681,20 @@ Definition copy_sds_dim_plumbing : bool :=
   | Some c, Some d => str_eqb c (d ++ [91; 105; 93])     (* dimsizes[i] *)
   | _, _ => false
   end.
+
+(** * Data movement of the copy routines
+
+    copy_sds moves the data either in one piece (start / edges set per dimension by the generated [copy_sds_start] /
+    [copy_sds_edge]) or strip by strip; copy_gr always in one piece; both read and write the same blocks (plumbing
+    tables).  [*_moves]: the cells moved, in the order they are moved, as row-major indices of the array. *)
+Definition one_piece (startf edgef : Z -> Z) (dims : list Z) : list (list Z * list Z) :=
+  [(map startf dims, map edgef dims)].
+
+Definition cells_of (dims : list Z) (blocks : list (list Z * list Z)) : list Z :=
+  flat_map (fun b => block_cells dims (fst b) (snd b) 0) blocks.
+
+Definition copy_sds_moves (dims : list Z) (eltsz buf flags comp : Z) : option (list Z) :=
+  if strip_mined (zprod dims * eltsz) flags comp then strip_order dims eltsz buf
+  else Some (cells_of dims (one_piece copy_sds_start copy_sds_edge dims)).
+
+Definition copy_gr_moves (dims : list Z) : list Z := cells_of dims (one_piece copy_gr_start copy_gr_edge dims).
